@@ -21,6 +21,19 @@ package driver
 //	restore:P:P2:N2  export the MDK with password P, create a NEW wallet (fresh directory, password P2, name N2) from
 //	                 it and make its locked handle the current one
 //
+// Two further line kinds exercise what a kmd process does that a single history cannot: several wallets at once.
+//
+//	probe G R M1:i1 M2:i2 ...   purity of the derivation: G goroutines, R rounds each; goroutine g calls extractKeyWithIndex
+//	                            (MDK id M, index i) for the pairs g, g+G, … in a tight loop, concurrently with the others,
+//	                            and compares every result with the harness's own derivation.  Result: "pure" or
+//	                            "impure <M>:<i>-><what came back>" (first disagreement).
+//	conc M K N                  K wallets (MDK ids M..M+K-1) of ONE SQLiteWalletDriver, each Init'ed, each generating N keys
+//	                            in its own goroutine, all at once; then every wallet is restored from its exported MDK
+//	                            (sequentially, fresh directory) and regenerates N keys.  Result: one token per wallet
+//	                            "<generated>/<restored>" with generated = seq:N when the addresses are d1..dN in order
+//	                            (else bad@<pos>:<symbol>) and restored = same when the restored wallet returns the
+//	                            same address sequence (else differs@<pos>).
+//
 // Addresses are symbolic: d<k> = the address the harness derives ITSELF from the MDK at index k (HKDF-Expand,
 // SHA-512/256, info "AlgorandDeterministicKey-<k>", independent of extractKeyWithIndex); x<j> = an unrelated key.
 // Result line: one token per op token:  <res>/<name id>/<sorted symbolic ListKeys, '-' when empty>
@@ -35,6 +48,7 @@ import (
 	"sort"
 	"strconv"
 	"strings"
+	"sync"
 	"testing"
 
 	"golang.org/x/crypto/hkdf"
@@ -330,6 +344,12 @@ var verifC46Seq int
 
 func verifC46Exec(line string) string {
 	f := strings.Fields(line)
+	if len(f) >= 4 && f[0] == "probe" {
+		return vh.Catch(func() string { return verifC46Probe(f) })
+	}
+	if len(f) == 4 && f[0] == "conc" {
+		return vh.Catch(func() string { return verifC46Conc(f) })
+	}
 	if len(f) < 2 || f[0] != "case" || !strings.HasPrefix(f[1], "new:") || len(strings.Split(f[1], ":")) != 4 {
 		return "bad-case"
 	}
@@ -351,6 +371,214 @@ func verifC46Exec(line string) string {
 			continue
 		}
 		res = append(res, r+"/"+vh.Catch(c.snapshot))
+	}
+	return strings.Join(res, " ")
+}
+
+// ---------------------------------------------------------------------------------------------- concurrency
+
+func verifC46Mdk(id string) crypto.MasterDerivationKey {
+	return crypto.MasterDerivationKey(sha512.Sum512_256([]byte("verif-c46-mdk-" + id)))
+}
+
+// verifC46Probe: extractKeyWithIndex must be a pure function of (mdk, index) also when called from several goroutines.
+func verifC46Probe(f []string) string {
+	g, rounds := int(vh.U(f[1])), int(vh.U(f[2]))
+	type pair struct {
+		id   string
+		mdk  crypto.MasterDerivationKey
+		idx  uint64
+		want crypto.Digest
+	}
+	var pairs []pair
+	syms := map[crypto.Digest]string{}
+	for _, t := range f[3:] {
+		a := strings.Split(t, ":")
+		if len(a) != 2 {
+			return "bad-op"
+		}
+		m, i := verifC46Mdk(a[0]), vh.U(a[1])
+		d, _, _ := verifC46Derive(m[:], i)
+		pairs = append(pairs, pair{a[0], m, i, d})
+		// what a confused derivation could return instead: the same MDK at a nearby / digit-related index
+		for k := uint64(0); k < 128; k++ {
+			dk, _, _ := verifC46Derive(m[:], k)
+			syms[dk] = fmt.Sprintf("%s:%d", a[0], k)
+		}
+	}
+	if g < 1 || len(pairs) == 0 {
+		return "bad-op"
+	}
+	first := make([]string, g)
+	var wg sync.WaitGroup
+	start := make(chan struct{})
+	for w := 0; w < g; w++ {
+		wg.Add(1)
+		go func(w int) {
+			defer wg.Done()
+			defer func() {
+				if r := recover(); r != nil && first[w] == "" {
+					first[w] = "PANIC " + strings.ReplaceAll(fmt.Sprint(r), " ", "_")
+				}
+			}()
+			<-start
+			for r := 0; r < rounds && first[w] == ""; r++ {
+				for k := w; k < len(pairs); k += g {
+					p := pairs[k]
+					pk, sk, err := extractKeyWithIndex(p.mdk[:], p.idx)
+					if err != nil {
+						first[w] = fmt.Sprintf("%s:%d->%s", p.id, p.idx, verifC46Err(err))
+						break
+					}
+					got := publicKeyToAddress(pk)
+					skpk, _ := crypto.SecretKeyToPublicKey(sk)
+					if got != p.want || publicKeyToAddress(skpk) != p.want {
+						what, ok := syms[got]
+						if !ok {
+							what = fmt.Sprintf("?%x", got[:6])
+						}
+						first[w] = fmt.Sprintf("%s:%d->%s", p.id, p.idx, what)
+						break
+					}
+				}
+			}
+		}(w)
+	}
+	close(start)
+	wg.Wait()
+	for _, s := range first {
+		if s != "" {
+			return "impure " + s
+		}
+	}
+	return "pure"
+}
+
+// verifC46Conc: K wallets of one driver generate concurrently; key #i of a wallet must be derive(its MDK, i), and a wallet
+// restored from the exported MDK must return the same address sequence.
+func verifC46Conc(f []string) string {
+	m0, k, n := int(vh.U(f[1])), int(vh.U(f[2])), int(vh.U(f[3]))
+	if k < 1 || k > 64 || n < 0 || n > 100000 {
+		return "bad-op"
+	}
+	verifC46Seq++
+	root := filepath.Join(verifC46Scratch, fmt.Sprintf("conc%d", verifC46Seq))
+	defer os.RemoveAll(root)
+	mkdriver := func(sub string) (*SQLiteWalletDriver, error) {
+		dir := filepath.Join(root, sub)
+		if err := os.MkdirAll(dir, 0700); err != nil {
+			return nil, err
+		}
+		cfg := config.KMDConfig{DataDir: dir}
+		cfg.DriverConfig.SQLiteWalletDriverConfig = config.SQLiteWalletDriverConfig{
+			UnsafeScrypt: true, ScryptParams: config.ScryptParams{ScryptN: 2, ScryptR: 1, ScryptP: 1}}
+		swd := &SQLiteWalletDriver{}
+		return swd, swd.InitWithConfig(cfg, logging.Base())
+	}
+	open := func(swd *SQLiteWalletDriver, name string, mdk crypto.MasterDerivationKey) (*SQLiteWallet, error) {
+		if err := swd.CreateWallet([]byte(name), []byte(name), []byte("pw1"), mdk); err != nil {
+			return nil, err
+		}
+		w, err := swd.FetchWallet([]byte(name))
+		if err != nil {
+			return nil, err
+		}
+		return w.(*SQLiteWallet), w.Init([]byte("pw1"))
+	}
+	swd, err := mkdriver("live")
+	if err != nil {
+		return "E:new(" + strings.ReplaceAll(err.Error(), " ", "_") + ")"
+	}
+	ws := make([]*SQLiteWallet, k)
+	mdks := make([]crypto.MasterDerivationKey, k)
+	for i := 0; i < k; i++ {
+		mdks[i] = verifC46Mdk(strconv.Itoa(m0 + i))
+		if ws[i], err = open(swd, fmt.Sprintf("w%d", i+1), mdks[i]); err != nil {
+			return verifC46Err(err)
+		}
+	}
+	gen := make([][]crypto.Digest, k)
+	fail := make([]string, k)
+	var wg sync.WaitGroup
+	start := make(chan struct{})
+	for i := 0; i < k; i++ {
+		wg.Add(1)
+		go func(i int) {
+			defer wg.Done()
+			defer func() {
+				if r := recover(); r != nil {
+					fail[i] = "PANIC_" + strings.ReplaceAll(fmt.Sprint(r), " ", "_")
+				}
+			}()
+			<-start
+			for j := 0; j < n; j++ {
+				a, err := ws[i].GenerateKey(false)
+				if err != nil {
+					fail[i] = verifC46Err(err) + "@" + strconv.Itoa(j+1)
+					return
+				}
+				gen[i] = append(gen[i], a)
+			}
+		}(i)
+	}
+	close(start)
+	wg.Wait()
+	// sequential from here on
+	res := make([]string, k)
+	for i := 0; i < k; i++ {
+		if fail[i] != "" {
+			res[i] = fail[i] + "/-"
+			continue
+		}
+		g := fmt.Sprintf("seq:%d", len(gen[i]))
+		want := map[crypto.Digest]string{}
+		for j := 0; j <= n+16; j++ {
+			d, _, _ := verifC46Derive(mdks[i][:], uint64(j))
+			want[d] = "d" + strconv.Itoa(j)
+		}
+		for j, a := range gen[i] {
+			d, _, _ := verifC46Derive(mdks[i][:], uint64(j+1))
+			if a != d {
+				s, ok := want[a]
+				if !ok {
+					s = fmt.Sprintf("?%x", a[:6])
+				}
+				g = fmt.Sprintf("bad@%d:%s", j+1, s)
+				break
+			}
+		}
+		mdk, err := ws[i].ExportMasterDerivationKey([]byte("pw1"))
+		if err != nil {
+			res[i] = g + "/" + verifC46Err(err)
+			continue
+		}
+		if mdk != mdks[i] {
+			res[i] = g + "/mdk-wrong"
+			continue
+		}
+		rsw, err := mkdriver(fmt.Sprintf("restored%d", i+1))
+		if err != nil {
+			res[i] = g + "/E:new"
+			continue
+		}
+		rw, err := open(rsw, "restored", mdk)
+		if err != nil {
+			res[i] = g + "/" + verifC46Err(err)
+			continue
+		}
+		r := "same"
+		for j := range gen[i] {
+			a, err := rw.GenerateKey(false)
+			if err != nil {
+				r = verifC46Err(err) + "@" + strconv.Itoa(j+1)
+				break
+			}
+			if a != gen[i][j] {
+				r = "differs@" + strconv.Itoa(j+1)
+				break
+			}
+		}
+		res[i] = g + "/" + r
 	}
 	return strings.Join(res, " ")
 }
@@ -549,6 +777,40 @@ func verifC46Exhaustive(depth int) []string {
 	return out
 }
 
+// several wallets / derivations at once (kmd serves its wallets concurrently; one sqlite file per wallet, no common lock)
+func verifC46Concurrent(rng *vh.Rng) []string {
+	var ops []string
+	np := vh.Budget(6, 40)
+	for c := 0; c < np; c++ {
+		g := 2 + rng.Intn(7)
+		toks := make([]string, 0, 2*g)
+		for i := 0; i < 2*g; i++ {
+			// distinct digit strings of different lengths, mostly small (a wallet's early keys), some around 10^k boundaries
+			var idx uint64
+			switch rng.Intn(5) {
+			case 0:
+				idx = uint64(1 + rng.Intn(9))
+			case 1:
+				idx = uint64(10 + rng.Intn(90))
+			case 2:
+				idx = uint64(1 + rng.Intn(120))
+			case 3:
+				idx = []uint64{99, 100, 999, 1000, 9999999, 10000000, 4294967296, 9223372036854775807}[rng.Intn(8)]
+			default:
+				idx = rng.U64() >> uint(1+rng.Intn(63))
+			}
+			toks = append(toks, fmt.Sprintf("%d:%d", 1+rng.Intn(4), idx))
+		}
+		ops = append(ops, fmt.Sprintf("probe %d %d %s", g, vh.Budget(4000, 20000), strings.Join(toks, " ")))
+	}
+	nc := vh.Budget(3, 12)
+	for c := 0; c < nc; c++ {
+		k := []int{8, 4, 12, 2, 16, 6}[c%6]
+		ops = append(ops, fmt.Sprintf("conc %d %d %d", 1+rng.Intn(50), k, vh.Budget(1600, 4000)/k))
+	}
+	return ops
+}
+
 func verifC46Generate() []string {
 	rng := vh.NewRng(vh.Seed())
 	ops := []string{
@@ -566,6 +828,7 @@ func verifC46Generate() []string {
 		depth = 4
 	}
 	ops = append(ops, verifC46Exhaustive(depth)...)
+	ops = append(ops, verifC46Concurrent(rng)...)
 	n := vh.Budget(450, 12000)
 	for i := 0; i < n; i++ {
 		ops = append(ops, verifC46RandomCase(rng, i))
@@ -589,6 +852,28 @@ func TestVerifC46(t *testing.T) {
 	out := vh.Open("c46")
 	defer out.Close()
 	for _, op := range ops {
+		out.Emit(op, verifC46Exec(op))
+	}
+}
+
+// TestVerifC46Race: a short concurrent run meant for `go test -race` (the check runs it that way when the race runtime is
+// available): the race detector reports unsynchronised sharing between wallets deterministically, without needing the
+// ~1 µs interleaving to happen.  Writes its own op/result files (c46race.*).
+func TestVerifC46Race(t *testing.T) {
+	verifC46Scratch = t.TempDir()
+	if d := os.Getenv("VERIF_SCRATCH"); d != "" {
+		if tmp, err := os.MkdirTemp(d, "verif-c46r-"); err == nil {
+			verifC46Scratch = tmp
+			defer os.RemoveAll(tmp)
+		}
+	}
+	out := vh.Open("c46race")
+	defer out.Close()
+	for _, op := range []string{
+		"probe 4 50 1:5 2:17 3:123 4:7 1:42 2:9 3:1000 4:88",
+		"conc 1 4 25",
+		"case new:1:1:1 init:1 gen imp:d3 gen gen del:d2:1 gen restore:1:2:4 init:2 gen gen gen gen gen list",
+	} {
 		out.Emit(op, verifC46Exec(op))
 	}
 }
